@@ -34,6 +34,8 @@ pub struct Outcome {
     pub first_events: Vec<String>,
     /// optional small history attached to an observation (first one seen in the run)
     pub obs_example: Option<(String, Value)>,
+    /// engine-specific numbers (C15: packets sent per endpoint when the run ended)
+    pub aux: Vec<u64>,
 }
 
 impl Outcome {
@@ -136,6 +138,9 @@ struct Agg {
     samples: BTreeMap<u64, Value>,
     obs_examples: BTreeMap<String, (u64, Value)>,
     violations: Vec<(u64, u64, Violation)>,
+    known_kept: u32,
+    fresh: u64,
+    by_key: BTreeMap<String, u64>,
 }
 
 pub fn replay<E: Engine>(e: &E, path: &str) -> i32 {
@@ -206,6 +211,9 @@ pub fn check<E: Engine>(e: &E, a: &CheckArgs) -> i32 {
     let agg = Mutex::new(Agg::default());
     let harness_err: Mutex<Option<String>> = Mutex::new(None);
     let strict_extra = std::env::var("LINKSIM_KEEP_GOING").is_ok();
+    let slow_ms: Option<u64> = std::env::var("LINKSIM_SLOW_MS").ok().and_then(|s| s.parse().ok());
+    let known = simkit::load_known();
+    let known_runs = AtomicU64::new(0);
 
     std::thread::scope(|s| {
         for _ in 0..a.threads.max(1) {
@@ -221,6 +229,7 @@ pub fn check<E: Engine>(e: &E, a: &CheckArgs) -> i32 {
                     }
                     let seed = hashn(a.seed, &[0x11c5, i]);
                     let plan = e.gen(seed);
+                    let t_run = Instant::now();
                     let out = match run_caught(e, &plan) {
                         Ok(o) => o,
                         Err(m) => {
@@ -229,6 +238,12 @@ pub fn check<E: Engine>(e: &E, a: &CheckArgs) -> i32 {
                             break;
                         }
                     };
+                    if let Some(ms) = slow_ms {
+                        let el = t_run.elapsed().as_millis() as u64;
+                        if el >= ms {
+                            eprintln!("slow run: index {i} seed {seed} {el} ms events {} sim {} us oracle_evals {}", out.events, out.sim_us, out.oracle_evals);
+                        }
+                    }
                     local.runs += 1;
                     local.events += out.events;
                     local.oracle_evals += out.oracle_evals;
@@ -260,12 +275,29 @@ pub fn check<E: Engine>(e: &E, a: &CheckArgs) -> i32 {
                         }
                     }
                     if !out.violations.is_empty() {
+                        let mut fresh = 0;
                         for v in out.violations {
-                            if local.violations.len() < 64 {
+                            // known findings neither stop the batch nor crowd out new violations
+                            if simkit::is_known(&known, &v).is_some() {
+                                known_runs.fetch_add(1, Ordering::Relaxed);
+                                if local.known_kept < 2 {
+                                    local.known_kept += 1;
+                                    local.violations.push((i, seed, v));
+                                }
+                                continue;
+                            }
+                            fresh += 1;
+                            let n = local.by_key.entry(format!("{} [{}]", v.oracle, v.sig)).or_insert(0);
+                            *n += 1;
+                            if *n <= 6 {
                                 local.violations.push((i, seed, v));
                             }
                         }
-                        if !strict_extra && local.violations.len() >= 8 {
+                        local.fresh += fresh;
+                        // quick batches are fixed-size and always run to the end (deterministic
+                        // evidence); a time-boxed thorough batch stops once there is enough
+                        // material for triage
+                        if thorough && !strict_extra && local.fresh >= 8 {
                             // enough material for triage; stop the batch early
                             stop.store(true, Ordering::Relaxed);
                         }
@@ -301,6 +333,9 @@ pub fn check<E: Engine>(e: &E, a: &CheckArgs) -> i32 {
                     }
                 }
                 g.violations.extend(local.violations);
+                for (k, v) in local.by_key {
+                    *g.by_key.entry(k).or_insert(0) += v;
+                }
             });
         }
     });
@@ -357,7 +392,7 @@ pub fn check<E: Engine>(e: &E, a: &CheckArgs) -> i32 {
         "distinct_event_kind_sequences": g.all_sigs.len(),
         "events_total": g.events,
         "oracle_evaluations": g.oracle_evals,
-        "runs_per_hour": if thorough || a.runs.is_some() { json!((g.runs as f64 / wall.max(1e-3) * 3600.0) as u64) } else { json!("see stdout (wall-clock dependent, omitted from the deterministic quick evidence)") },
+        "runs_per_hour": if thorough || a.runs.is_some() { json!((g.runs as f64 / wall.max(1e-3) * 3600.0) as u64) } else { json!("= evaluations / wall_s * 3600; wall-clock dependent, so the number itself is printed on stdout and stored only in thorough-tier evidence (quick evidence is byte-identical run to run except wall_s)") },
         "sim_time_total_s": g.sim_us / 1_000_000,
         "faults_fired": g.faults,
         "reach_probes": g.probes,
@@ -367,10 +402,15 @@ pub fn check<E: Engine>(e: &E, a: &CheckArgs) -> i32 {
         "components": e.components(),
         "not_reached_at_component_level": e.unreached(),
         "known_findings_seen": known_seen,
+        "violating_runs_by_oracle": g.by_key,
+        "known_finding_runs": known_runs.load(Ordering::Relaxed),
+        "quick_batch_truncated_by_wall_cap": !thorough && a.runs.is_none() && g.runs < e.quick_runs() && exit == 0,
         "replays": replay_paths,
         "threads": a.threads,
     });
-    simkit::write_evidence(a, "exploration", coverage, &e.assumptions(), wall, new_violations);
+    let _ = new_violations;
+    let violating_runs: u64 = g.by_key.values().sum();
+    simkit::write_evidence(a, "exploration", coverage, &e.assumptions(), wall, violating_runs);
     println!(
         "check {} tier={} seed={} runs={} nontrivial={} distinct_nontrivial={} events={} oracle_evals={} sim_time={}s wall={:.1}s runs/s={:.0} violations={} known={}",
         e.property(),
@@ -384,7 +424,7 @@ pub fn check<E: Engine>(e: &E, a: &CheckArgs) -> i32 {
         g.sim_us / 1_000_000,
         wall,
         g.runs as f64 / wall.max(1e-3),
-        new_violations,
+        violating_runs,
         known_seen.values().sum::<u64>()
     );
     println!("faults_fired {:?}", g.faults);
@@ -392,13 +432,19 @@ pub fn check<E: Engine>(e: &E, a: &CheckArgs) -> i32 {
     if !g.obs.is_empty() {
         println!("observations (not violations) {:?}", g.obs);
     }
+    if !g.by_key.is_empty() {
+        println!("violating runs by oracle [sig]: {:?}", g.by_key);
+    }
     if exit == 0 && !missing.is_empty() {
         eprintln!("HARNESS-ERROR: reach probes at zero: {missing:?}");
         return 2;
     }
     if exit == 0 && !thorough && a.runs.is_none() && g.runs < e.quick_runs() {
-        eprintln!("HARNESS-ERROR: quick batch hit the wall cap after {} of {} runs", g.runs, e.quick_runs());
-        return 2;
+        println!("NOTE: quick batch hit the 55 s wall cap after {} of {} runs (machine busy); evidence of this run is not comparable run-to-run", g.runs, e.quick_runs());
+    }
+    let kr = known_runs.load(Ordering::Relaxed);
+    if kr > 0 {
+        println!("runs stopped at a known finding: {kr}");
     }
     exit
 }
